@@ -298,6 +298,8 @@ func runEngine(r *R, sp engSpec, horizon time.Duration) *engResult {
 		// the guns report a pooled sample per shot and the aggregator recycles what it has handled (as phout does): a
 		// sample somebody keeps using after handing it over then meets another shot's values
 		script.Report = true
+		// the guns are closable: a gun the engine has closed must not be asked to shoot any more
+		script.Closable = true
 		if sp.PanicOn {
 			script.PanicInst, script.PanicShot = sp.PanicInst, sp.PanicShot
 		}
